@@ -26,7 +26,10 @@ def conc_value(v):
 
 def conc_rule(r):
     d = {}
-    if r["rx"]["t"] == "":
+    sp = r["rx"].get("sp", "")
+    if sp == "only":
+        d["regex"] = " "
+    elif r["rx"]["t"] == "":
         if r.get("rxmode", "empty") == "empty":
             d["regex"] = ""
     else:
@@ -35,6 +38,10 @@ def conc_rule(r):
             d["regex"] += r"\s+" + WORDS[r["rx"]["t2"]][0 if r["rx"]["c"] == "l" else 1]
         elif r["rx"].get("opt"):
             d["regex"] = r.get("optform", "(%s)?") % d["regex"]
+        elif sp == "trail":
+            d["regex"] += " "
+        elif sp == "lead":
+            d["regex"] = " " + d["regex"]
     if r["ic"] or r.get("ic_explicit"):
         d["ignore_case"] = r["ic"]
     if r["hs"]:
@@ -76,7 +83,7 @@ class Cc:
 
 
 def abs_rule(r):
-    rx = {"t": r["rx"]["t"], "c": r["rx"]["c"], "t2": r["rx"].get("t2", ""), "opt": bool(r["rx"].get("opt")) and not r["rx"].get("t2") and r["rx"]["t"] != ""}
+    rx = {"t": r["rx"]["t"], "c": r["rx"]["c"], "t2": r["rx"].get("t2", ""), "opt": bool(r["rx"].get("opt")) and not r["rx"].get("t2") and r["rx"]["t"] != "", "sp": r["rx"].get("sp", "")}
     return {"rx": rx, "ic": r["ic"], "hs": r["hs"] and bool(r["sk"]), "sk": list(r["sk"])}
 
 
@@ -113,7 +120,10 @@ def rand_rule(rnd):
     sk = rnd.choice([[], [], ["k1"], ["k2"], ["k9", "k1"], ["k3", "k2"]])
     t2 = rnd.choice(["t1", "t2", "t3", "t4"]) if t and rnd.random() < 0.25 else ""
     opt = bool(t) and not t2 and rnd.random() < 0.12
-    return {"optform": rnd.choice(["(%s)?", "(?:%s)*", "^(%s)?", "%s|$"]), "rx": {"t": t, "c": rnd.choice("lu") if t else "l", "t2": t2, "opt": opt}, "ic": rnd.random() < 0.4, "hs": bool(sk) or rnd.random() < 0.2, "sk": sk,
+    sp = ""
+    if not t2 and not opt and rnd.random() < 0.15:
+        sp = rnd.choice(["trail", "lead"]) if t else "only"
+    return {"optform": rnd.choice(["(%s)?", "(?:%s)*", "^(%s)?", "%s|$"]), "rx": {"t": t, "c": rnd.choice("lu") if t else "l", "t2": t2, "opt": opt, "sp": sp}, "ic": rnd.random() < 0.4, "hs": bool(sk) or rnd.random() < 0.2, "sk": sk,
             "rxmode": rnd.choice(["empty", "missing"]), "ic_explicit": rnd.random() < 0.5}
 
 
